@@ -161,6 +161,10 @@ impl Curve for K256 {
 
     fn batch_normalize(p: &[Self], q: &mut [Self::AffineRepr]) {
         assert_eq!(p.len(), q.len());
+        if p.is_empty() {
+            // k256's batch normalisation asserts a non-empty input.
+            return;
+        }
         let inner: Vec<ProjectivePoint> = p.iter().map(|pt| pt.0).collect();
 
         let affine_points: Vec<AffinePoint> =
